@@ -14,6 +14,9 @@ def run(ctx):
         ctx.correspond(bdb, "TestVerifC02DB", "svdriver_c02", "c02db",
                        env={"VERIF_N": 30 if quick else 400, "VERIF_OPS": 30 if quick else 50},
                        timeout=900 if quick else 3000)
+        # the witnesses of the two KNOWN findings of the db store run in a pass of their own
+        # (oracle only, nothing modelled): the main passes above stay strict
+        ctx.correspond(bdb, "TestVerifC02DBKnown", "svdriver_c02", "c02dbknown", timeout=600)
     return ctx.finish(
         level="proof",
         rule="random tar archives (names with ./ ../ / // prefixes, implicit and late explicit parents, a root entry, "
@@ -29,7 +32,15 @@ def run(ctx):
              "concurrent readers; every read, lookup, listing, attribute block and xattr is compared with the tar "
              "itself (oracle) and with the Lean model (chunk lookup, read arithmetic incl. which chunks get stored, "
              "tarView + entryToAttr for metadata); both metadata stores (db store from the cmd module); a history is "
-             "distinct by (build options, stack configuration, #entries, #chunks, op shape)",
+             "distinct by (build options, stack configuration, #entries, #chunks, op shape). Hand-written scenarios "
+             "first, incl. the regression layouts of the repaired defects 8686934 (empty file in the stream at blob "
+             "offset 0), 46fe897 (several chunks of a file in one stream, db store) and eb6fe18 (background fetch on "
+             "the db store). EXCLUSIONS of the main passes, both for the db store only and both covered by a known "
+             "finding whose witness runs in the separate pass TestVerifC02DBKnown: (1) the ROOT directory's own "
+             "attribute block and xattrs are not compared (db-root-attr-read-before-init; the root's listing and "
+             "every other node are compared); (2) the db-store generator emits no directory entry after an entry "
+             "below that directory (db-dir-nlink-double-counted-late-dir-entry); the fs/layer (memory store) "
+             "passes have neither exclusion",
         assumptions=[
             "Honest: what the lower layers deliver and the reader accepts is the built payload (digest verification = "
             "SHA-256 collision resistance + the TOC digests being those of the tar payload, C01/C03; or an honest blob "
